@@ -238,7 +238,7 @@ PROPS = {
     },
     "C14": {
         "flavours": ["tsan", "asan"],
-        "runs": {"quick": 1200, "thorough": 50000},
+        "runs": {"quick": 2400, "thorough": 50000},
         "rule": "one case = base configuration open to drop-ins, 0-3 files "
         "present at start-up and 1-10 operations by an actor thread on the "
         "real drop-in directory (create+write in 1-3 writes, truncate-and-"
